@@ -15,7 +15,7 @@ import (
 	"verif/harness/run"
 )
 
-var c13NumKeys = []string{"1", "1.0", "1e0", "10e-1", "2", "2.0", "20e-1", "3", "-1", "-1.0", "0", "-0", "0.0", "1.5", "15e-1", "10", "9", "100", "1e2", "0.5", "5e-1"}
+var c13NumKeys = []string{"1", "1.0", "1e0", "10e-1", "2", "2.0", "20e-1", "3", "-1", "-1.0", "0", "-0", "0.0", "1.5", "15e-1", "10", "9", "100", "1e2", "0.5", "5e-1", "5E-1", "1E0", "1E+1", "15E-1"}
 var c13StrKeys = []string{"", "a", "b", "ab", "aa", "B", "A", "é", "e", "z", "日", "日本", "😀", "�", "~", "ÿ", "ā", "￿", "𐀀", "a ", " a"}
 
 // c13Verdict checks the validity predicates of sort / sort_by / min / max /
